@@ -24,7 +24,7 @@ RELATED = {
     "replay.go": ["C08", "C09", "C18", "C19", "C04"],
     "joe.go": ["C03", "C04", "C06", "C07", "C17", "C05"],
     "client.go": ["C12", "C11", "C10"],
-    "client_connection.go": ["C10", "C11", "C12", "C13", "C01", "C05"],
+    "client_connection.go": ["C10", "C11", "C12", "C13", "C01", "C20", "C05"],
     "session.go": ["C16", "C14", "C05"],
     "server.go": ["C16", "C05"],
 }
